@@ -212,6 +212,10 @@ BASES = {
     'elec': ('GEOPHIRESv3.py', ['Reservoir Model, 4', 'Drawdown Parameter, 0.02', 'Reservoir Depth, 3', 'Gradient 1, 55', 'End-Use Option, 1',
                                 'Power Plant Type, 1', 'Plant Lifetime, 4', 'Time steps per year, 2', 'Number of Production Wells, 2',
                                 'Number of Injection Wells, 2', 'Print Output to Console, 0']),
+    # the same, with two lines whose names are prefixes of one another, the longer one first ('#' = "mean from the input file" must find its own line)
+    'elecvol': ('GEOPHIRESv3.py', ['Reservoir Model, 4', 'Drawdown Parameter, 0.02', 'Reservoir Depth, 3', 'Gradient 1, 55', 'End-Use Option, 1',
+                                   'Power Plant Type, 1', 'Plant Lifetime, 4', 'Time steps per year, 2', 'Number of Production Wells, 2',
+                                   'Number of Injection Wells, 2', 'Reservoir Volume Option, 3', 'Reservoir Volume, 1e9', 'Print Output to Console, 0']),
     'heat': ('GEOPHIRESv3.py', ['Reservoir Model, 3', 'Drawdown Parameter, 0.00006', 'Reservoir Depth, 2.5', 'Gradient 1, 45', 'End-Use Option, 2',
                                 'Power Plant Type, 9', 'Plant Lifetime, 4', 'Time steps per year, 2', 'Print Output to Console, 0']),
     'hip': ('hip_ra_x.py', ['Reservoir Temperature, 250.0', 'Rejection Temperature, 60.0', 'Reservoir Porosity, 10.0', 'Reservoir Area, 55.0',
